@@ -331,6 +331,11 @@ func (packet *PacketHandler) IsExecute() bool {
 	return packet.messageType[0] == ExecuteMessageType
 }
 
+// IsSync returns true if packet has Sync type from the db driver
+func (packet *PacketHandler) IsSync() bool {
+	return packet.messageType[0] == SyncMessageType
+}
+
 // IsErrorResponse returns True if it is ErrorResponse from the database
 func (packet *PacketHandler) IsErrorResponse() bool {
 	return packet.messageType[0] == ErrorResponseType
